@@ -58,8 +58,21 @@ def build(case):
         for sign in (-1, 1):
             sid += 1
             planes.append(M.Surf(sid, kind, [sign * half[ax]]))
-    inner = M.Surf(7, 's', [rnd(rng, -0.5, 0.5), rnd(rng, -0.5, 0.5),
-                            rnd(rng, -0.5, 0.5), rnd(rng, 1, 2)])
+    cen = [rnd(rng, -0.5, 0.5), rnd(rng, -0.5, 0.5), rnd(rng, -0.5, 0.5)]
+    rad = rnd(rng, 1, 2)
+    ikind = rng.choice(['s', 's', 'sq', 'gq', 'sq'])
+    if ikind == 's':
+        inner = M.Surf(7, 's', cen + [rad])
+    elif ikind == 'sq':
+        inner = M.Surf(7, 'sq', [1 / rad**2, 1 / (0.8 * rad)**2,
+                                 1 / (0.9 * rad)**2, 0, 0, 0, -1] + cen)
+    else:
+        from ..gen_surf import _gq_from, random_rotation
+        rot = random_rotation(rng)
+        diag = np.diag([1 / rad**2, 1 / (0.8 * rad)**2, 1 / (0.9 * rad)**2])
+        inner = M.Surf(7, 'gq', _gq_from(rot.T @ diag @ rot, np.array(cen),
+                                         -1.0))
+    deck.tags.add(f'bc.inner.{ikind}')
     cyl = M.Surf(8, 'c/z', [rnd(rng, -0.3, 0.3), rnd(rng, -0.3, 0.3),
                             rnd(rng, 2.2, 2.8)])
     deck.surfs = planes + [inner, cyl]
@@ -110,7 +123,7 @@ def build(case):
     if fam == 'with-tr':
         mot = Motion([rnd(rng, -0.3, 0.3), rnd(rng, -0.3, 0.3), 0.0])
         deck.trs.append(tr_card(rng, 4, mot, rng.choice(['12', '3'])))
-        tgt = rng.choice([inner, cyl, planes[0], planes[3]])
+        tgt = rng.choice([inner, inner, cyl, planes[0], planes[3]])
         tgt.tr = 4
         flag(tgt)
     if fam == 'unused':
